@@ -8,9 +8,11 @@ import (
 	"encoding/hex"
 	"fmt"
 	"math/big"
+	"os"
 	"sort"
 	"strconv"
 	"strings"
+	"time"
 
 	"github.com/cosmos/cosmos-sdk/store/prefix"
 	sdk "github.com/cosmos/cosmos-sdk/types"
@@ -236,9 +238,13 @@ func (e *Env) Exec(line string) string {
 		e.SetBlock(h, t)
 		return "ok"
 	case "begin":
-		return e.runTx(func(ctx sdk.Context) (string, error) { mhub2.BeginBlocker(ctx, e.k); return "ok", nil })
+		return e.watchdog(func() string {
+			return e.runTx(func(ctx sdk.Context) (string, error) { mhub2.BeginBlocker(ctx, e.k); return "ok", nil })
+		})
 	case "end":
-		return e.runTx(func(ctx sdk.Context) (string, error) { mhub2.EndBlocker(ctx, e.k); return "ok", nil })
+		return e.watchdog(func() string {
+			return e.runTx(func(ctx sdk.Context) (string, error) { mhub2.EndBlocker(ctx, e.k); return "ok", nil })
+		})
 	case "send":
 		amt, ok1 := parseInt(w[5])
 		fee, ok2 := parseInt(w[6])
@@ -454,7 +460,9 @@ func (e *Env) Exec(line string) string {
 				return "ok", err
 			}
 			hs := &oracletypes.Holders{}
-			if w[3] != "-" {
+			if w[3] == "nil" {
+				hs = nil
+			} else if w[3] != "-" {
 				for _, it := range strings.Split(w[3], ",") {
 					kv := strings.SplitN(it, "=", 2)
 					v, _ := parseInt(kv[1])
@@ -469,7 +477,9 @@ func (e *Env) Exec(line string) string {
 			return "ok", err
 		})
 	case "oend":
-		return e.runTx(func(ctx sdk.Context) (string, error) { oracle.EndBlocker(ctx, e.ok); return "ok", nil })
+		return e.watchdog(func() string {
+			return e.runTx(func(ctx sdk.Context) (string, error) { oracle.EndBlocker(ctx, e.ok); return "ok", nil })
+		})
 	case "dump":
 		e.Init()
 		if len(w) == 2 && w[1] == "oracle" {
@@ -506,6 +516,32 @@ func (e *Env) DumpOracle() string {
 	}
 	return fmt.Sprintf("oracle epoch=%d prices=%s holders=%s pvotes=%s hvotes=%s", ep, strings.Join(ps, ","), strings.Join(hs, ","),
 		votes(&oracletypes.MsgPriceClaim{Epoch: ep}), votes(&oracletypes.MsgHoldersClaim{Epoch: ep}))
+}
+
+// watchdog runs block processing under a time limit: a call that does not return is a deadlock.
+// After a deadlock the environment is unusable (the stuck goroutine holds store locks).
+func (e *Env) watchdog(f func() string) string {
+	if e.dead {
+		return "deadlock"
+	}
+	ch := make(chan string, 1)
+	go func() { ch <- f() }()
+	select {
+	case r := <-ch:
+		return r
+	case <-time.After(e.watchdogLimit()):
+		e.dead = true
+		return "deadlock"
+	}
+}
+
+func (e *Env) watchdogLimit() time.Duration {
+	if s := os.Getenv("VERIF_WATCHDOG_S"); s != "" {
+		if n, err := strconv.Atoi(s); err == nil {
+			return time.Duration(n) * time.Second
+		}
+	}
+	return 20 * time.Second
 }
 
 func (e *Env) pure(f func() string) (res string) {
